@@ -449,7 +449,13 @@ def run(F, run, tier):
     check_laguerre_step(F, run, roots)
     check_complex_domain(F, run, roots)
     check_make_complex(F, run)
-    check_zeros(F, run, tier)
+    # hermite_zeros builds its start guesses from f32 constants (from_f32(1/3), from_f32(3.3721/∛6)): only the structure of the zero finders is
+    # decided here, so the exact f32 values (huge dyadic rationals) are not modelled in this call
+    sym.F32_EXACT = False
+    try:
+        check_zeros(F, run, tier)
+    finally:
+        sym.F32_EXACT = True
     run.assumptions += ["the Laguerre iteration is abstracted to 'a value G was found' and Newton polishing is uninterpreted: that they deliver *the* roots, one-to-one and accurately, "
                         "is numerical and not decided", "exact arithmetic, generic coefficients"]
     expl = ("Polynomial::roots is evaluated abstractly on symbolic coefficients: the closed forms for degree 1 and 2 are verified as identities; for degree 3–4(5) the Laguerre loop is "
